@@ -63,13 +63,17 @@ Definition is_whitespace (c : char) : bool :=
    (8192 <=? c) && (c <=? 8202) || (c =? 8232) || (c =? 8233) || (c =? 8239) || (c =? 8287) ||
    (c =? 12288))%N.
 
+(* list reversal in linear time (Coq's List.rev is quadratic, which the extracted runner feels on
+   a Files value of 10^5 characters); frev l = rev l (proofs/CopyrightP.v: frev_rev) *)
+Definition frev (l : str) : str := rev_append l [].
+
 (* str::split_whitespace: the maximal runs of non-whitespace characters. [acc] is the current run, reversed. *)
 Fixpoint split_ws (acc : str) (s : str) : list str :=
   match s with
-  | [] => match acc with [] => [] | _ :: _ => [rev acc] end
+  | [] => match acc with [] => [] | _ :: _ => [frev acc] end
   | c :: r =>
     if is_whitespace c then
-      match acc with [] => split_ws [] r | _ :: _ => rev acc :: split_ws [] r end
+      match acc with [] => split_ws [] r | _ :: _ => frev acc :: split_ws [] r end
     else split_ws (c :: acc) r
   end.
 Definition split_whitespace (s : str) : list str := split_ws [] s.
@@ -77,8 +81,8 @@ Definition split_whitespace (s : str) : list str := split_ws [] s.
 (* str::split('\n'): always at least one piece *)
 Fixpoint split_lf_go (acc : str) (s : str) : list str :=
   match s with
-  | [] => [rev acc]
-  | c :: r => if (c =? 10)%N then rev acc :: split_lf_go [] r else split_lf_go (c :: acc) r
+  | [] => [frev acc]
+  | c :: r => if (c =? 10)%N then frev acc :: split_lf_go [] r else split_lf_go (c :: acc) r
   end.
 Definition split_lf (s : str) : list str := split_lf_go [] s.
 
